@@ -230,3 +230,45 @@ theorem psum_const (n : ℕ) (a : ℕ → ℝ) (c : ℝ) (h : ∀ i, i < n → a
     ∑ i ∈ Finset.range n, a i = n * c := by
   rw [Finset.sum_congr rfl (fun i hi => h i (Finset.mem_range.mp hi))]
   simp
+
+-- ---------------------------------------------------------------- filtered lists (pyvc FilterListSpec: conditional append)
+-- cnt keep k = number of kept source positions below k = length of the list after k iterations
+def cnt (keep : ℕ → Prop) [DecidablePred keep] (k : ℕ) : ℕ := ((Finset.range k).filter keep).card
+
+theorem cnt_zero (keep : ℕ → Prop) [DecidablePred keep] : cnt keep 0 = 0 := by simp [cnt]
+
+theorem cnt_succ (keep : ℕ → Prop) [DecidablePred keep] (k : ℕ) :
+    cnt keep (k+1) = cnt keep k + (if keep k then 1 else 0) := by
+  unfold cnt
+  rw [Finset.range_add_one, Finset.filter_insert]
+  split_ifs with h
+  · rw [Finset.card_insert_of_notMem]; simp
+  · simp
+
+theorem cnt_mono (keep : ℕ → Prop) [DecidablePred keep] (k n : ℕ) (h : k ≤ n) : cnt keep k ≤ cnt keep n := by
+  unfold cnt
+  apply Finset.card_le_card
+  apply Finset.filter_subset_filter
+  exact Finset.range_mono h
+
+-- a kept source position k < n lands at list position cnt k < cnt n (in range of the finished list)
+theorem cnt_lt (keep : ℕ → Prop) [DecidablePred keep] (k n : ℕ) (h : k < n) (hk : keep k) : cnt keep k < cnt keep n := by
+  have h1 : cnt keep (k+1) ≤ cnt keep n := cnt_mono keep (k+1) n h
+  have h2 := cnt_succ keep k
+  simp [hk] at h2
+  omega
+
+-- the position function is injective on kept positions, so "source of list position p" is well defined
+theorem cnt_inj (keep : ℕ → Prop) [DecidablePred keep] (j k : ℕ) (hj : keep j) (hk : keep k) (h : cnt keep j = cnt keep k) : j = k := by
+  rcases Nat.lt_trichotomy j k with h1 | h1 | h1
+  · have := cnt_lt keep j k h1 hj; omega
+  · exact h1
+  · have := cnt_lt keep k j h1 hk; omega
+
+-- the index map {name of V_k : k} of a variable list is injective on the names of the list (contracts/lpextract_c.py: INJ)
+theorem idx_inj {α : Type} (f : ℕ → α) (idx : α → ℕ) (n : ℕ) (h : ∀ k, k < n → idx (f k) = k)
+    (a b : α) (ha : ∃ j, j < n ∧ f j = a) (hb : ∃ k, k < n ∧ f k = b) (e : idx a = idx b) : a = b := by
+  obtain ⟨j, hj, rfl⟩ := ha
+  obtain ⟨k, hk, rfl⟩ := hb
+  rw [h j hj, h k hk] at e
+  rw [e]
